@@ -184,3 +184,62 @@ def body_decl(sel: int) -> bool:
     if p.list_decay_modes("D0") != [["K-", "pi+"], ["pi0", "pi0"]]:
         return fail(f"decay table of D0 disturbed: {p.list_decay_modes('D0')}")
     return True
+
+
+# ---- numbers as numbers, for every value: the query functions on hand-built trees whose numeric tokens carry symbolic floats -----------
+class Tok:
+    """stand-in for a lark Token: the query functions only read ``.value``"""
+
+    def __init__(self, value):
+        self.value = value
+
+
+N_VALUES = 8
+
+
+def body_values(sel: int, x: float, y: float) -> bool:
+    from lark import Tree
+    from decaylanguage.dec import dec as D
+    T = lambda name, *ch: Tree(name, list(ch))
+    if sel == 0:
+        tree = T("start", T("define", Tok("a"), Tok(x)), T("define", Tok("b"), Tok(y)), T("define", Tok("a"), Tok(y)))
+        got, exp = D.get_definitions(tree), {"a": y, "b": y}
+    elif sel == 1:
+        tree = T("start", T("particle_def", Tok("MyRho"), Tok(x), Tok(y)), T("particle_def", Tok("Other"), Tok(y), Tok(x)))
+        got, exp = D.get_particle_property_definitions(tree), {"MyRho": {"mass": x, "width": y}, "Other": {"mass": y, "width": x}}
+    elif sel == 2:
+        tree = T("start", T("setlsbw", Tok("P1"), Tok(x)), T("changemasslimit", Tok("ChangeMassMin"), Tok("P1"), Tok(y)),
+                 T("changemasslimit", Tok("ChangeMassMax"), Tok("P2"), Tok(x)))
+        got = D.get_lineshape_settings(tree)
+        exp = {"P1": {"BlattWeisskopf": x, "ChangeMassMin": y}, "P2": {"ChangeMassMax": x}}
+    elif sel == 3:
+        tree = T("start", T("pythia_def", Tok("PythiaBothParam"), Tok("Mod"), Tok("par"), Tok(x)),
+                 T("pythia_def", Tok("PythiaBothParam"), Tok("Mod"), Tok("par2"), Tok(y)),
+                 T("pythia_def", Tok("PythiaAliasParam"), Tok("Mod"), Tok("par"), Tok("on")))
+        got = D.get_pythia_definitions(tree)
+        exp = {"PythiaBothParam": {"Mod:par": x, "Mod:par2": y}, "PythiaAliasParam": {"Mod:par": "on"}}
+    elif sel in (4, 5):
+        line = T("decayline", T("value", Tok(x)), T("particle", Tok("K+")), T("particle", Tok("K-")),
+                 T("model", Tok("SVS_CP"), T("model_options", T("value", Tok(y)), Tok("word"), T("value", Tok(x)))))
+        if sel == 4:
+            got = (D.get_branching_fraction(line), D.get_model_parameters(line), D.get_final_state_particle_names(line), D.get_model_name(line))
+            exp = (x, [y, "word", x], ["K+", "K-"], "SVS_CP")
+        else:
+            # the Define visitor turns numeric parameters into floats and leaves the rest
+            D.DecayModelParamValueReplacement(define_defs={"word": y}).visit(line)
+            got, exp = D.get_model_parameters(line), [y, y, x]
+    elif sel == 6:
+        tree = T("start", T("particle_def", Tok("K_S0"), Tok(x)), T("alias", Tok("MyK"), Tok("K_S0")), T("particle_def", Tok("MyK"), Tok(y)))
+        got = D.get_particle_property_definitions(tree)
+        w = _ref_width_gev("K_S0")
+        exp = {"K_S0": {"mass": x, "width": w}, "MyK": {"mass": y, "width": w}}
+    else:
+        tree = T("start", T("setlsbw", Tok("P1"), Tok(x)), T("setlsbw", Tok("P1"), Tok(y)))
+        try:
+            got = D.get_lineshape_settings(tree)
+        except RuntimeError:
+            return True
+        return fail(f"a repeated BlattWeisskopf setting was accepted: {got}")
+    if got != exp:
+        return fail(f"query on a tree with numeric values x={x!r}, y={y!r}: {got!r}, expected {exp!r}")
+    return True
